@@ -228,4 +228,473 @@ Proof.
     { rewrite IterBits.popcnt_length, Hsq. cbn [length]. lia. }
     destruct (N.eqb_spec (popcnt (checkers b)) 1) as [Hq|_]; [contradiction|]. reflexivity.
 Qed.
+
+(** ** 4. The layer statements *)
+Hypothesis Lsafe : stmt_safe_nonking.
+Hypothesis Lking : stmt_king_step.
+Hypothesis Lcastle : stmt_castle.
+Hypothesis Lep : stmt_ep.
+Hypothesis Lpseudo : stmt_pseudo.
+Hypothesis Lpromo : stmt_promo.
+Hypothesis Lep1 : stmt_ep_one_checker.
+
+Lemma epsq_lt64 e : epsq b = Some e -> e < 64.
+Proof.
+  intro He. pose proof HWF as H. unfold BoardWF in H. rewrite He in H.
+  destruct H as [_ [_ [_ [_ [_ [_ [_ [_ [_ [_ [_ H]]]]]]]]]]]. exact H.
+Qed.
+
+Lemma ep_abs e : epsq b = Some e -> ep p = Some (uforward me e).
+Proof. intro He. unfold abs_board. cbn [ep]. rewrite He. reflexivity. Qed.
+
+Lemma code_dests_bounded t s d : N.testbit (code_dests b t s) d = true -> d < 64.
+Proof.
+  intro H. destruct t; unfold code_dests in H; cbv zeta in H; fold (mask_of b) in H;
+    exact (pseudo_bounded b HC _ d H).
+Qed.
+
+Lemma is_ep_ext q m m' : src m = src m' -> dst m = dst m' -> is_ep q m = is_ep q m'.
+Proof. unfold is_ep. intros -> ->. reflexivity. Qed.
+
+Lemma pseudo_from_pawn s : at_ p s = Some (Pawn, me) -> pseudo_from p s = pawn_moves p me s.
+Proof.
+  intro Hat. unfold pseudo_from. cbv zeta. rewrite Hat. change (turn p) with me.
+  rewrite color_eqb_refl. reflexivity.
+Qed.
+
+(** *** 4.1 Men other than the king, not en passant *)
+Definition ordC (t:ptype) (c:cmove) : Prop :=
+  N.testbit (pieces b t) (msrc c) = true /\ N.testbit (own_bb b) (msrc c) = true /\
+  N.testbit (code_dests b t (msrc c)) (mdst c) = true /\ code_guard (msrc c) (mdst c) = true /\
+  promo_ok (flag b t (msrc c)) (mpromo c).
+(** a legal move of the specification made by a man of type [t]; [isep] says whether it is
+    an en-passant capture *)
+Definition specS (t:ptype) (isep:bool) (c:cmove) : Prop :=
+  exists m, of_spec_move m = c /\ In m (legal_moves p) /\ has p (src m) t me = true /\ is_ep p m = isep.
+
+Lemma ordC_to_spec t c : t <> King -> ordC t c -> specS t false c.
+Proof.
+  intros Ht H. destruct c as [s d pr]. unfold ordC in H. cbn [msrc mdst mpromo] in H.
+  destruct H as [H1 [H2 [H3 [H4 H5]]]].
+  assert (Hs : s < 64) by exact (own_bounded_b s H2).
+  assert (Hd : d < 64) by exact (code_dests_bounded t s d H3).
+  assert (Hhas : has p s t me = true) by (rewrite (has_own s t Hs), H1, H2; reflexivity).
+  pose proof (has_at _ _ _ _ Hhas) as Hat.
+  apply (Lpseudo b s t d Hcan Hv Hs Hd Hhas) in H3.
+  unfold spec_dests in H3. apply in_map_iff in H3. destruct H3 as [m' [Hdm' Hm']].
+  apply filter_In in Hm'. destruct Hm' as [Hm' Hf]. apply andb_prop in Hf. destruct Hf as [Hnep _].
+  pose proof (pseudo_from_src _ _ _ Hm') as Hsm'.
+  assert (Hpm' : In m' (pseudo p)) by (apply pseudo_in; rewrite Hsm'; split; assumption).
+  pose proof (Lpromo b m' Hcan Hv Hpm') as Hpr. rewrite Hsm', Hat in Hpr.
+  destruct m' as [s' d' pr']. cbn [src dst promo] in *. subst s' d'.
+  assert (Hin : In {| src := s; dst := d; promo := pr |} (pseudo_from p s)).
+  { destruct t.
+    - rewrite (pseudo_from_pawn s Hat) in *. unfold flag in H5.
+      destruct (sq_rank s =? seventh_rk me).
+      + destruct pr' as [x|]; [|discriminate Hpr].
+        destruct H5 as [y [Hy ->]].
+        pose proof (pawn_moves_promo p me s _ Hm') as Hall. cbn [promo dst] in Hall.
+        destruct Hall as [_ Hall]. exact (Hall y Hy).
+      + destruct pr' as [x|]; [discriminate Hpr|]. cbn [promo_ok] in H5. subst pr. exact Hm'.
+    - cbn [flag promo_ok] in H5. subst pr pr'. exact Hm'.
+    - cbn [flag promo_ok] in H5. subst pr pr'. exact Hm'.
+    - cbn [flag promo_ok] in H5. subst pr pr'. exact Hm'.
+    - cbn [flag promo_ok] in H5. subst pr pr'. exact Hm'.
+    - contradiction Ht. reflexivity. }
+  set (m := {| src := s; dst := d; promo := pr |}) in *.
+  assert (Hinp : In m (pseudo p)) by (apply pseudo_in; split; [exact Hs|exact Hin]).
+  assert (Hepm : is_ep p m = false).
+  { rewrite (is_ep_ext p m {| src := s; dst := d; promo := pr' |}); [|reflexivity|reflexivity].
+    destruct (is_ep p {| src := s; dst := d; promo := pr' |}); [discriminate Hnep|reflexivity]. }
+  assert (Hnk : piece_at_is p (src m) King = false).
+  { unfold piece_at_is. change (src m) with s. rewrite Hat.
+    destruct t; try reflexivity. contradiction Ht. reflexivity. }
+  pose proof (Lsafe p m Hv Hinp Hnk Hepm) as Hsafe.
+  rewrite (code_guard_rhs m Hs Hd H2) in Hsafe. change (src m) with s in Hsafe. change (dst m) with d in Hsafe.
+  exists m. split; [reflexivity|]. split; [|split; [exact Hhas|exact Hepm]].
+  apply legal_in. split; [exact Hinp|]. rewrite Hsafe. exact H4.
+Qed.
+
+Lemma spec_to_ordC t c : t <> King -> specS t false c -> ordC t c.
+Proof.
+  intros Ht [m [Hc [Hleg [Hhas Hnep]]]]. subst c. unfold ordC, of_spec_move. cbn [msrc mdst mpromo].
+  apply legal_in in Hleg. destruct Hleg as [Hinp Hsafe].
+  destruct (proj1 (pseudo_in p m) Hinp) as [Hs Hin].
+  pose proof (pseudo_from_dst_lt64 p _ m Hs Hin) as Hd.
+  pose proof (has_at _ _ _ _ Hhas) as Hat.
+  pose proof Hhas as Hhas'. rewrite (has_own _ t Hs) in Hhas'. apply andb_prop in Hhas'.
+  destruct Hhas' as [H1 H2].
+  split; [exact H1|]. split; [exact H2|].
+  assert (Hncs : is_castle p m = false).
+  { unfold is_castle. change (turn p) with me. rewrite (at_has_other p (src m) t me King Hat); [reflexivity|].
+    intro E. apply Ht. symmetry. exact E. }
+  split.
+  { apply (Lpseudo b (src m) t (dst m) Hcan Hv Hs Hd Hhas). unfold spec_dests. apply in_map.
+    apply filter_In. split; [exact Hin|]. rewrite Hnep, Hncs. reflexivity. }
+  assert (Hnk : piece_at_is p (src m) King = false).
+  { unfold piece_at_is. rewrite Hat. destruct t; try reflexivity. contradiction Ht. reflexivity. }
+  pose proof (Lsafe p m Hv Hinp Hnk Hnep) as Hs2. rewrite (code_guard_rhs m Hs Hd H2) in Hs2.
+  split; [rewrite <- Hs2; exact Hsafe|].
+  pose proof (Lpromo b m Hcan Hv Hinp) as Hpr. rewrite Hat in Hpr.
+  destruct t; cbn [flag promo_ok]; try exact Hpr.
+  - unfold promo_ok. rewrite <- Hpr. rewrite (pseudo_from_pawn _ Hat) in Hin.
+    pose proof (pawn_moves_promo p me (src m) m Hin) as Hall.
+    destruct (promo m) as [x|]; [|reflexivity].
+    exists x. split; [exact (proj1 Hall)|reflexivity].
+Qed.
+
+(** *** 4.2 En passant *)
+Lemma epc_to_spec c : epc b c -> specS Pawn true c.
+Proof.
+  intros [e [He [Hw [HP [Ho [Hl [Hd Hpr]]]]]]]. destruct c as [s d pr]. cbn [msrc mdst mpromo] in *.
+  subst d pr.
+  assert (Hs : s < 64) by exact (own_bounded_b s Ho).
+  pose proof (epsq_lt64 e He) as He64. pose proof (ep_abs e He) as Hepp.
+  destruct (ep_valid p _ Hv Hepp) as [Hdl [Hrk Hocc]]. change (turn p) with me in Hrk.
+  destruct (ep_geom me e s He64 Hs Hrk) as [Hg1 Hg2].
+  pose proof (proj1 Hg1 Hw) as Hstep. destruct (Hg2 Hw) as [Hfile _].
+  assert (Hhas : has p s Pawn me = true) by (rewrite (has_own s Pawn Hs); cbn [pieces]; rewrite HP, Ho; reflexivity).
+  pose proof (has_at _ _ _ _ Hhas) as Hat.
+  assert (Hen : enemy p me (uforward me e) = false).
+  { destruct (enemy p me (uforward me e)) eqn:E; [|reflexivity]. apply enemy_occ in E.
+    rewrite Hocc in E. discriminate E. }
+  pose proof (pawn_moves_ep_in p me s _ Hepp Hstep Hen) as Hin.
+  assert (Hinp : In (mv s (uforward me e)) (pseudo p)).
+  { apply pseudo_in. cbn [src mv]. split; [exact Hs|]. rewrite (pseudo_from_pawn s Hat). exact Hin. }
+  pose proof (Lep b e s Hcan Hv He Hs Hhas Hw) as HL. rewrite Hl in HL. injection HL as HL.
+  exists (mv s (uforward me e)). split; [reflexivity|]. split; [|split; [exact Hhas|]].
+  - apply legal_in. split; [exact Hinp|]. symmetry. exact HL.
+  - unfold is_ep. cbn [src dst mv]. change (turn p) with me. rewrite Hhas, Hocc.
+    destruct (N.eqb_spec (file_of s) (file_of (uforward me e))) as [E|_]; [contradiction|reflexivity].
+Qed.
+
+Lemma spec_to_epc c : specS Pawn true c -> epc b c.
+Proof.
+  intros [m [Hc [Hleg [Hhas Hep]]]]. subst c. apply legal_in in Hleg. destruct Hleg as [Hinp Hsafe].
+  destruct (proj1 (pseudo_in p m) Hinp) as [Hs Hin].
+  pose proof (has_at _ _ _ _ Hhas) as Hat. rewrite (pseudo_from_pawn _ Hat) in Hin.
+  unfold is_ep in Hep. change (turn p) with me in Hep. rewrite Hhas in Hep. cbn [andb] in Hep.
+  apply andb_prop in Hep. destruct Hep as [Hf Ho].
+  assert (Hfile : file_of (dst m) <> file_of (src m)).
+  { intro E. rewrite E, N.eqb_refl in Hf. discriminate Hf. }
+  assert (Hocc : occ p (dst m) = false) by (destruct (occ p (dst m)); [discriminate Ho|reflexivity]).
+  destruct (pawn_moves_ep_only p me (src m) m Hs Hin Hfile Hocc) as [Hm [Hepp Hstep]].
+  destruct (epsq b) as [e|] eqn:He; [|unfold abs_board in Hepp; cbn [ep] in Hepp; rewrite He in Hepp; discriminate Hepp].
+  pose proof (ep_abs e He) as Hepp'. rewrite Hepp in Hepp'. injection Hepp' as Hdst.
+  pose proof (epsq_lt64 e He) as He64.
+  destruct (ep_valid p _ Hv Hepp) as [_ [Hrk _]]. change (turn p) with me in Hrk. rewrite Hdst in Hrk.
+  destruct (ep_geom me e (src m) He64 Hs Hrk) as [Hg1 _].
+  rewrite Hdst in Hstep. pose proof (proj2 Hg1 Hstep) as Hw.
+  pose proof Hhas as Hhas'. rewrite (has_own _ Pawn Hs) in Hhas'. apply andb_prop in Hhas'.
+  destruct Hhas' as [HP Hown]. cbn [pieces] in HP.
+  pose proof (Lep b e (src m) Hcan Hv He Hs Hhas Hw) as HL.
+  exists e. unfold of_spec_move. cbn [msrc mdst mpromo].
+  split; [exact He|]. split; [exact Hw|]. split; [exact HP|]. split; [exact Hown|].
+  split; [|split; [exact Hdst|rewrite Hm; reflexivity]].
+  rewrite HL. f_equal. rewrite <- Hdst, <- Hm. exact Hsafe.
+Qed.
+
+(** *** 4.3 The king *)
+Definition kingS (c:cmove) : Prop :=
+  exists m, of_spec_move m = c /\ In m (legal_moves p) /\ has p (src m) King me = true.
+
+Lemma pseudo_from_king :
+  pseudo_from p k = map (mv k) (filter (fun d => negb (own p me d)) (steps k king_dirs))
+                    ++ (if k =? home_rank me * 8 + 4 then castle_moves p me else []).
+Proof.
+  unfold pseudo_from, attack_set. cbv zeta. rewrite at_king. change (turn p) with me.
+  rewrite color_eqb_refl. reflexivity.
+Qed.
+
+Lemma castle_in_k m : In m (castle_moves p me) -> k = home_rank me * 8 + 4.
+Proof.
+  intro H. apply castle_nonempty_king in H. destruct (castle_geom me) as [He _]. cbv zeta in He.
+  symmetry. apply (has_king_iff _ He). exact H.
+Qed.
+
+Lemma ck_eq ic : negb ic = (checkers b =? 0) -> negb ic && castle_k_cond b = code_castle_k b.
+Proof.
+  intros ->. unfold castle_k_cond, code_castle_k, kq. cbv zeta. rewrite !andb_assoc. reflexivity.
+Qed.
+Lemma cq_eq ic : negb ic = (checkers b =? 0) -> negb ic && castle_q_cond b = code_castle_q b.
+Proof.
+  intros ->. unfold castle_q_cond, code_castle_q, kq. cbv zeta. rewrite !andb_assoc. reflexivity.
+Qed.
+
+Lemma mask_own d : d < 64 -> N.testbit (mask_of b) d = negb (own p me d).
+Proof.
+  intro Hd. unfold mask_of. rewrite (FiniteFnsEq.testbit_lnot64 _ _ Hd), (own_abs b me d HC Hd). reflexivity.
+Qed.
+
+Lemma kingc_to_spec ic c : negb ic = (checkers b =? 0) -> kingc b ic c -> kingS c.
+Proof.
+  intros Hic [Hs [Hw Hpr]]. destruct c as [s d pr]. cbn [msrc mdst mpromo] in *. subst s pr.
+  rewrite (king_word_testbit b ic d) in Hw.
+  destruct (Lcastle b Hcan Hv) as [Hck [Hcq Hcsafe]].
+  rewrite <- (ck_eq ic Hic) in Hck. rewrite <- (cq_eq ic Hic) in Hcq.
+  destruct (castle_geom me) as [_ [Hrr [Hll _]]]. cbv zeta in Hrr, Hll.
+  assert (Hkhas : has p k King me = true) by (apply (has_king_iff k k_lt); reflexivity).
+  assert (Hcastle : forall d', In (mv (home_rank me * 8 + 4) d') (castle_moves p me) ->
+                               k = home_rank me * 8 + 4 -> kingS {| msrc := k; mdst := d'; mpromo := None |}).
+  { intros d' Hm Hke. rewrite <- Hke in Hm. exists (mv k d'). split; [reflexivity|]. split; [|exact Hkhas].
+    apply legal_in. split; [|exact (Hcsafe _ Hm)].
+    apply pseudo_in. cbn [src mv]. split; [exact k_lt|]. rewrite pseudo_from_king. apply in_or_app. right.
+    destruct (N.eqb_spec k (home_rank me * 8 + 4)) as [_|Hne]; [exact Hm|contradiction]. }
+  destruct (negb ic && castle_k_cond b && (uright (uright k) =? d)) eqn:Bk.
+  { apply andb_prop in Bk. destruct Bk as [Bk Bd]. apply N.eqb_eq in Bd.
+    rewrite Bk in Hck. symmetry in Hck. apply spec_castle_in in Hck. change (turn p) with me in Hck.
+    pose proof (castle_in_k _ Hck) as Hke. rewrite <- Hke in Hrr. rewrite <- Bd, Hrr.
+    exact (Hcastle _ Hck Hke). }
+  destruct (negb ic && castle_q_cond b && (uleft (uleft k) =? d)) eqn:Bq.
+  { apply andb_prop in Bq. destruct Bq as [Bq Bd]. apply N.eqb_eq in Bd.
+    rewrite Bq in Hcq. symmetry in Hcq. apply spec_castle_in in Hcq. change (turn p) with me in Hcq.
+    pose proof (castle_in_k _ Hcq) as Hke. rewrite <- Hke in Hll. rewrite <- Bd, Hll.
+    exact (Hcastle _ Hcq Hke). }
+  rewrite !xorb_false_r in Hw. apply andb_prop in Hw. destruct Hw as [Hw Hlk].
+  apply andb_prop in Hw. destruct Hw as [Hkm Hmask].
+  assert (Hd : d < 64) by exact (mask_bounded b HC d Hmask).
+  rewrite (mask_own d Hd) in Hmask.
+  assert (Hown : own p me d = false) by (destruct (own p me d); [discriminate Hmask|reflexivity]).
+  exists (mv k d). split; [reflexivity|]. split; [|exact Hkhas].
+  apply legal_in. split.
+  - apply pseudo_in. cbn [src mv]. split; [exact k_lt|]. rewrite pseudo_from_king. apply in_or_app. left.
+    apply in_map. apply filter_In. split; [|exact Hmask]. apply (king_steps k d k_lt Hd). exact Hkm.
+  - pose proof (Lking b d Hcan Hv Hd) as HK. rewrite kingsq_k in HK. rewrite (HK Hkm Hown). exact Hlk.
+Qed.
+
+Lemma spec_to_kingc ic c : negb ic = (checkers b =? 0) -> kingS c -> kingc b ic c.
+Proof.
+  intros Hic [m [Hc [Hleg Hhas]]]. subst c. apply legal_in in Hleg. destruct Hleg as [Hinp Hsafe].
+  destruct (proj1 (pseudo_in p m) Hinp) as [Hs Hin].
+  pose proof (pseudo_from_dst_lt64 p _ m Hs Hin) as Hd.
+  apply (has_king_iff _ Hs) in Hhas. destruct m as [s d pr]. cbn [src dst promo] in *. subst s.
+  rewrite pseudo_from_king in Hin.
+  unfold kingc, of_spec_move. cbn [msrc mdst mpromo src dst promo].
+  destruct (Lcastle b Hcan Hv) as [Hck [Hcq Hcsafe]].
+  rewrite <- (ck_eq ic Hic) in Hck. rewrite <- (cq_eq ic Hic) in Hcq.
+  rewrite (king_word_testbit b ic d).
+  destruct (castle_geom me) as [He64 [Hrr [Hll [_ [_ [Hn6 [Hn2 Hne]]]]]]]. cbv zeta in He64, Hrr, Hll, Hn6, Hn2.
+  apply in_app_or in Hin. destruct Hin as [Hin|Hin].
+  - apply in_map_iff in Hin. destruct Hin as [d' [Hm Hdin]]. unfold mv in Hm. injection Hm as <- <-.
+    apply filter_In in Hdin. destruct Hdin as [Hst Hown].
+    split; [reflexivity|]. split; [|reflexivity].
+    assert (Hkm : N.testbit (king_moves k) d' = true) by (apply (king_steps k d' k_lt Hd); exact Hst).
+    assert (Hown' : own p me d' = false) by (destruct (own p me d'); [discriminate Hown|reflexivity]).
+    pose proof (Lking b d' Hcan Hv Hd) as HK. rewrite kingsq_k in HK. specialize (HK Hkm Hown').
+    change (safe p (mv k d') = true) in Hsafe. rewrite HK in Hsafe.
+    rewrite Hkm, (mask_own d' Hd), Hown, Hsafe. cbn [andb].
+    assert (Bk : negb ic && castle_k_cond b && (uright (uright k) =? d') = false).
+    { destruct (negb ic && castle_k_cond b) eqn:E; [|reflexivity]. cbn [andb].
+      symmetry in Hck. apply spec_castle_in in Hck. change (turn p) with me in Hck.
+      pose proof (castle_in_k _ Hck) as Hke. rewrite <- Hke in Hrr, Hn6.
+      destruct (N.eqb_spec (uright (uright k)) d') as [E'|_]; [|reflexivity].
+      rewrite <- E', Hrr, Hn6 in Hkm. discriminate Hkm. }
+    assert (Bq : negb ic && castle_q_cond b && (uleft (uleft k) =? d') = false).
+    { destruct (negb ic && castle_q_cond b) eqn:E; [|reflexivity]. cbn [andb].
+      symmetry in Hcq. apply spec_castle_in in Hcq. change (turn p) with me in Hcq.
+      pose proof (castle_in_k _ Hcq) as Hke. rewrite <- Hke in Hll, Hn2.
+      destruct (N.eqb_spec (uleft (uleft k)) d') as [E'|_]; [|reflexivity].
+      rewrite <- E', Hll, Hn2 in Hkm. discriminate Hkm. }
+    rewrite Bk, Bq. reflexivity.
+  - destruct (N.eqb_spec k (home_rank me * 8 + 4)) as [Hke|_]; [|destruct Hin].
+    rewrite <- Hke in Hrr, Hll, Hn6, Hn2.
+    destruct (castle_moves_in _ _ _ Hin) as [Hm|Hm]; unfold mv in Hm; injection Hm as _ -> ->.
+    + split; [reflexivity|]. split; [|reflexivity].
+      assert (Hsc : spec_castle p true = true) by (apply spec_castle_in; change (turn p) with me; rewrite <- Hke; exact Hin).
+      rewrite Hsc in Hck. rewrite Hck, Hn6, Hrr, N.eqb_refl, Hll. cbn [andb xorb].
+      destruct (N.eqb_spec (home_rank me * 8 + 2) (home_rank me * 8 + 6)) as [E|_];
+        [exfalso; apply Hne; symmetry; exact E|].
+      rewrite andb_false_r. reflexivity.
+    + split; [reflexivity|]. split; [|reflexivity].
+      assert (Hsc : spec_castle p false = true) by (apply spec_castle_in; change (turn p) with me; rewrite <- Hke; exact Hin).
+      rewrite Hsc in Hcq. rewrite Hcq, Hn2, Hll, N.eqb_refl, Hrr. cbn [andb xorb].
+      destruct (N.eqb_spec (home_rank me * 8 + 6) (home_rank me * 8 + 2)) as [E|_];
+        [exfalso; apply Hne; exact E|].
+      rewrite andb_false_r. reflexivity.
+Qed.
+
+(** *** 4.4 The members of the specification's list, by kind *)
+Lemma spec_members c :
+  In c (map of_spec_move (legal_moves p)) <->
+  (exists t, t <> King /\ specS t false c) \/ specS Pawn true c \/ kingS c.
+Proof.
+  rewrite in_map_iff. split.
+  - intros [m [Hc Hleg]]. pose proof Hleg as Hleg'. apply legal_in in Hleg'. destruct Hleg' as [Hinp _].
+    destruct (proj1 (pseudo_in p m) Hinp) as [Hs Hin].
+    destruct (pseudo_from_cases p _ m Hin) as (t & c' & Hat & _).
+    assert (Hc' : c' = me).
+    { unfold pseudo_from in Hin. cbv zeta in Hin. rewrite Hat in Hin.
+      destruct (color_eqb (turn p) c') eqn:E; [|destruct Hin]. apply color_eqb_eq in E. symmetry. exact E. }
+    subst c'. pose proof (at_has _ _ _ _ Hat) as Hhas.
+    destruct t.
+    + destruct (is_ep p m) eqn:Eep.
+      * right. left. exists m. repeat split; assumption.
+      * left. exists Pawn. split; [discriminate|]. exists m. repeat split; assumption.
+    + left. exists Knight. split; [discriminate|]. exists m. repeat split; try assumption.
+      unfold is_ep. change (turn p) with me. rewrite (at_has_other _ _ _ _ Pawn Hat); [reflexivity|discriminate].
+    + left. exists Bishop. split; [discriminate|]. exists m. repeat split; try assumption.
+      unfold is_ep. change (turn p) with me. rewrite (at_has_other _ _ _ _ Pawn Hat); [reflexivity|discriminate].
+    + left. exists Rook. split; [discriminate|]. exists m. repeat split; try assumption.
+      unfold is_ep. change (turn p) with me. rewrite (at_has_other _ _ _ _ Pawn Hat); [reflexivity|discriminate].
+    + left. exists Queen. split; [discriminate|]. exists m. repeat split; try assumption.
+      unfold is_ep. change (turn p) with me. rewrite (at_has_other _ _ _ _ Pawn Hat); [reflexivity|discriminate].
+    + right. right. exists m. repeat split; assumption.
+  - intros [[t [_ [m [Hc [Hl _]]]]]|[[m [Hc [Hl _]]]|[m [Hc [Hl _]]]]]; exists m; split; assumption.
+Qed.
+
+(** *** 4.5 The three modes of [enumerate_moves] *)
+Lemma code_guard_mode0 s d : checkers b = 0 -> code_guard s d = guard_ic b false s d.
+Proof. intro H. unfold code_guard. rewrite H. reflexivity. Qed.
+Lemma code_guard_mode1 s d : checkers b <> 0 -> popcnt (checkers b) = 1 -> code_guard s d = guard_ic b true s d.
+Proof.
+  intros H0 H1. unfold code_guard. destruct (N.eqb_spec (checkers b) 0) as [E|_]; [contradiction|].
+  rewrite H1. reflexivity.
+Qed.
+Lemma code_guard_mode2 s d : checkers b <> 0 -> popcnt (checkers b) <> 1 -> code_guard s d = false.
+Proof.
+  intros H0 H1. unfold code_guard. destruct (N.eqb_spec (checkers b) 0) as [E|_]; [contradiction|].
+  destruct (N.eqb_spec (popcnt (checkers b)) 1) as [E|_]; [contradiction|]. reflexivity.
+Qed.
+
+Lemma ordc_ordC ic t c : (forall s d, code_guard s d = guard_ic b ic s d) -> (ordc b ic t c <-> ordC t c).
+Proof. intro H. unfold ordc, ordC. rewrite H. reflexivity. Qed.
+
+Theorem gen_members c :
+  In c (expand (enumerate_moves b)) <-> In c (map of_spec_move (legal_moves p)).
+Proof.
+  rewrite spec_members, enumerate_gen.
+  destruct (N.eqb_spec (checkers b) 0) as [Hz|Hnz].
+  - assert (Hic : negb false = (checkers b =? 0)) by (rewrite Hz; reflexivity).
+    rewrite (gen_in b HC false c). split.
+    + intros [[t [Ht H]]|[H|H]].
+      * left. exists t. split; [exact Ht|]. apply (ordC_to_spec t c Ht).
+        apply (ordc_ordC false t c (fun s d => code_guard_mode0 s d Hz)). exact H.
+      * right. left. exact (epc_to_spec c H).
+      * right. right. exact (kingc_to_spec false c Hic H).
+    + intros [[t [Ht H]]|[H|H]].
+      * left. exists t. split; [exact Ht|].
+        apply (ordc_ordC false t c (fun s d => code_guard_mode0 s d Hz)). exact (spec_to_ordC t c Ht H).
+      * right. left. exact (spec_to_epc c H).
+      * right. right. exact (spec_to_kingc false c Hic H).
+  - assert (Hic : negb true = (checkers b =? 0)).
+    { destruct (N.eqb_spec (checkers b) 0) as [E|_]; [contradiction|reflexivity]. }
+    destruct (N.eqb_spec (popcnt (checkers b)) 1) as [H1|Hn1].
+    + rewrite (gen_in b HC true c). split.
+      * intros [[t [Ht H]]|[H|H]].
+        -- left. exists t. split; [exact Ht|]. apply (ordC_to_spec t c Ht).
+           apply (ordc_ordC true t c (fun s d => code_guard_mode1 s d Hnz H1)). exact H.
+        -- right. left. exact (epc_to_spec c H).
+        -- right. right. exact (kingc_to_spec true c Hic H).
+      * intros [[t [Ht H]]|[H|H]].
+        -- left. exists t. split; [exact Ht|].
+           apply (ordc_ordC true t c (fun s d => code_guard_mode1 s d Hnz H1)). exact (spec_to_ordC t c Ht H).
+        -- right. left. exact (spec_to_epc c H).
+        -- right. right. exact (spec_to_kingc true c Hic H).
+    + rewrite (king_only_in b c). split.
+      * intro H. right. right. exact (kingc_to_spec true c Hic H).
+      * intros [[t [Ht H]]|[H|H]].
+        -- exfalso. apply (spec_to_ordC t c Ht) in H. destruct H as [_ [_ [_ [H _]]]].
+           rewrite (code_guard_mode2 _ _ Hnz Hn1) in H. discriminate H.
+        -- exfalso. apply spec_to_epc in H. destruct H as [e [He _]].
+           assert (Hne : epsq b <> None) by (rewrite He; discriminate).
+           pose proof (Lep1 b Hcan Hv Hne) as Hle.
+           assert (popcnt (checkers b) <> 0) by (intro E; apply Hnz, popcnt_zero, E). lia.
+        -- exact (spec_to_kingc true c Hic H).
+Qed.
+
+(** *** 4.6 No duplicates *)
+Lemma ep_target : ep_target_ok b.
+Proof.
+  intros e He. pose proof (epsq_lt64 e He) as He64. pose proof (ep_abs e He) as Hepp.
+  destruct (ep_valid p _ Hv Hepp) as [Hdl [Hrk Hocc]]. change (turn p) with me in Hrk. split.
+  - rewrite <- (occ_abs b _ HC Hdl). exact Hocc.
+  - intros s Hs Hw. exact (proj2 (proj2 (ep_geom me e s He64 Hs Hrk) Hw)).
+Qed.
+
+Theorem gen_code_NoDup : NoDup (expand (enumerate_moves b)).
+Proof.
+  rewrite enumerate_gen.
+  destruct (checkers b =? 0); [exact (gen_NoDup b HC Hkk false ep_target)|].
+  destruct (popcnt (checkers b) =? 1); [exact (gen_NoDup b HC Hkk true ep_target)|].
+  apply king_only_NoDup.
+Qed.
+
+Theorem gen_spec_NoDup : NoDup (map of_spec_move (legal_moves p)).
+Proof.
+  apply NoDup_map_inj; [exact of_spec_move_inj|]. unfold legal_moves. apply NoDup_filter', pseudo_NoDup.
+Qed.
 End Asm.
+
+(** ** 5. The theorem *)
+Theorem gen_from_layers :
+  stmt_safe_nonking -> stmt_king_step -> stmt_castle -> stmt_ep -> stmt_pseudo -> stmt_promo ->
+  stmt_ep_one_checker -> stmt_gen.
+Proof.
+  intros L1 L2 L3 L4 L5 L6 L7 b Hcan Hv. split.
+  - apply perm_of_members.
+    + exact (gen_code_NoDup b Hcan Hv).
+    + exact (gen_spec_NoDup b).
+    + intro c. exact (gen_members b Hcan Hv L1 L2 L3 L4 L5 L6 L7 c).
+  - exact (gen_code_NoDup b Hcan Hv).
+Qed.
+
+Check gen_from_layers :
+  stmt_safe_nonking -> stmt_king_step -> stmt_castle -> stmt_ep -> stmt_pseudo -> stmt_promo ->
+  stmt_ep_one_checker ->
+  forall b, b = from_scratch (abs_board b) -> pos_valid (abs_board b) = true ->
+    Permutation (expand (enumerate_moves b)) (map of_spec_move (legal_moves (abs_board b)))
+    /\ NoDup (expand (enumerate_moves b)).
+
+(** ** 6. Corollaries for the iterator and the legality query
+    ([moves_of] = a full iteration of [MoveGen::new_legal]; [legal] = [Board::legal]) *)
+From Chess Require Import Proofs.StatusModel.
+
+Theorem gen_moves_of : stmt_gen -> forall b,
+  b = from_scratch (abs_board b) -> pos_valid (abs_board b) = true -> is_sane b = true ->
+  Permutation (moves_of b) (map of_spec_move (legal_moves (abs_board b))) /\ NoDup (moves_of b).
+Proof.
+  intros G b Hcan Hv Hsane.
+  assert (HWF : BoardWF b) by (rewrite Hcan; apply from_scratch_wf).
+  rewrite (moves_of_expand b HWF Hsane). exact (G b Hcan Hv).
+Qed.
+
+Theorem gen_legal_query : stmt_gen -> forall b,
+  b = from_scratch (abs_board b) -> pos_valid (abs_board b) = true -> is_sane b = true ->
+  forall m, legal b m = true <-> In m (map of_spec_move (legal_moves (abs_board b))).
+Proof.
+  intros G b Hcan Hv Hsane m.
+  assert (HWF : BoardWF b) by (rewrite Hcan; apply from_scratch_wf).
+  rewrite (legal_iff b m HWF Hsane). destruct (G b Hcan Hv) as [HP _]. split.
+  - apply Permutation_in. exact HP.
+  - apply Permutation_in. apply Permutation_sym. exact HP.
+Qed.
+
+(** with the round-trip statement of the interface file, sanity is not a premise *)
+Lemma roundtrip_sane : stmt_roundtrip -> forall b,
+  b = from_scratch (abs_board b) -> pos_valid (abs_board b) = true -> is_sane b = true.
+Proof. intros R b Hcan Hv. rewrite Hcan. exact (proj2 (R (abs_board b) Hv)). Qed.
+
+(** ** 7. Examples: the premises are satisfiable — the start position, and a position with a
+    live en-passant capture, a capture and a promotion (the two sides then have the same
+    number of moves, as the theorem says) *)
+Example gen_from_layers_ex_start :
+  from_scratch startpos = from_scratch (abs_board (from_scratch startpos)) /\
+  pos_valid (abs_board (from_scratch startpos)) = true /\ is_sane (from_scratch startpos) = true /\
+  length (expand (enumerate_moves (from_scratch startpos))) = 20%nat /\
+  length (legal_moves (abs_board (from_scratch startpos))) = 20%nat.
+Proof. repeat split; vm_compute; reflexivity. Qed.
+
+Example gen_from_layers_ex_ep :
+  from_scratch gas_pos = from_scratch (abs_board (from_scratch gas_pos)) /\
+  pos_valid (abs_board (from_scratch gas_pos)) = true /\ is_sane (from_scratch gas_pos) = true /\
+  epsq (from_scratch gas_pos) = Some 35 /\
+  expand (enumerate_moves (from_scratch gas_pos))
+  = map of_spec_move (legal_moves (abs_board (from_scratch gas_pos))) /\
+  In {| msrc := 36; mdst := 43; mpromo := None |} (expand (enumerate_moves (from_scratch gas_pos))) /\
+  In {| msrc := 49; mdst := 57; mpromo := Some Knight |} (expand (enumerate_moves (from_scratch gas_pos))).
+Proof. repeat split; vm_compute; try reflexivity; tauto. Qed.
+
+Print Assumptions gen_from_layers.
+Print Assumptions ep_one_checker_double.
+Print Assumptions gen_moves_of.
+Print Assumptions gen_legal_query.
